@@ -520,7 +520,7 @@ func oracleB(f *fixB, after string) []finding {
 		}{{"allocated", q.Status.Allocated, ref[i].Allocated}, {"allocatedNonPreemptible", q.Status.AllocatedNonPreemptible, ref[i].AllocatedNonPreemptible},
 			{"requested", q.Status.Requested, ref[i].Requested}} {
 			if !rlEqual(fld.got, fld.want) {
-				out = append(out, finding{fmt.Sprintf("C20/queue-%s-mismatch parent=%t diff=%s after=%s", fld.name, hasChildren, diffDir(fld.got, fld.want), after),
+				out = append(out, finding{fmt.Sprintf("C20/queue-%s-mismatch parent=%t diff=%s after=%s", fld.name, hasChildren, firstDiff(fld.got, fld.want), after),
 					fmt.Sprintf("Queue %s (level %d) status.%s = {%s} but the sum over its pod groups and child queues is {%s}", qName(i), lvl, fld.name, rlCanon(fld.got), rlCanon(fld.want))})
 			}
 		}
